@@ -1,11 +1,11 @@
 package checks
 
 import (
-	"go/constant"
-	"os"
 	"fmt"
+	"go/constant"
 	"go/token"
 	"go/types"
+	"os"
 
 	"fv/internal/core"
 
